@@ -65,6 +65,12 @@ def main():
             return ("C08",)
         if name in ("Combiner_first_ingredient_edge", "Combiner_recipe_index"):
             return ("C16",)
+        if name in ("FleetStore_capacity_trigger", "FleetStore_activation_guard", "FleetStore_transit_legs"):
+            return ("C14",)
+        if name in ("Node_elapsed", "Node_state_charge"):
+            return ("C17",)
+        if name == "Sink_cycle_increment" or name.endswith(("_level_increment", "_level_count")):
+            return ("C18",)
         return ()
     for k, v in tr.get("fragments", {}).items():
         if v.get("status") != "ok" and pid in frag_props(k):
@@ -72,7 +78,8 @@ def main():
     for target, props in (("theories/Edges/TieB.vo", ("C01", "C02", "C04", "C09", "C11", "C15")),
                           ("theories/Nodes/TieAcc.vo", ("C15", "C17")),
                           ("theories/Edges/TieBelt.vo", ("C12", "C13")),
-                          ("theories/Nodes/TieNodes.vo", ("C08", "C16"))):
+                          ("theories/Nodes/TieNodes.vo", ("C08", "C16")),
+                          ("theories/Factory/TieStats.vo", ("C14", "C17", "C18"))):
         if pid in props:
             okt, logt = lib.build_coq_target(target)
             if not okt:
